@@ -222,6 +222,12 @@ func (p *Impl) Load(cacheFile string) (err error) {
 }
 
 func (p *Impl) loadCachePkgs(lines []string) error {
+	// nothing is stored unless the whole file is well-formed
+	type loaded struct {
+		path string
+		pkg  *pkgCache
+	}
+	var pkgs []loaded
 	for len(lines) > 0 {
 		line := lines[0]
 		parts := strings.SplitN(line, "\t", 4)
@@ -246,8 +252,11 @@ func (p *Impl) loadCachePkgs(lines []string) error {
 			deps = append(deps, depPkg{line[:pos], line[pos+1:]})
 		}
 		pkg := &pkgCache{expfile: parts[1], hash: parts[2], deps: deps}
-		p.cache.Store(parts[0], pkg)
+		pkgs = append(pkgs, loaded{parts[0], pkg})
 		lines = lines[n+1:]
+	}
+	for _, v := range pkgs {
+		p.cache.Store(v.path, v.pkg)
 	}
 	return nil
 }
